@@ -6,8 +6,100 @@ LABELS = ['C01.ElectionRule', 'C01.MasterOnlyAuto']
 TERMINAL = ['C01.Convergence']
 
 
+SEQ_RESULTS = []
+
+
+def automatic_actions(tier, seed, tail):
+    """'No instance starts, stops or conciliates anything automatically unless it is that Master': conciliation and
+    sequencing scenarios on real cores, judged on the origin of every request (ConcilMon / SequencerMon)."""
+    import random
+    import vlib
+    import c05
+    import seq_check as sk
+    v = vlib.Verdict('C01', tier, seed)
+    scs = [s for s in c05.directed(tier) if s['strategy'] != 'USER']
+    if tier == 'quick':
+        scs = scs[::3]
+    traces = c05.run_scenarios(scs)
+    c05.judge(v, traces, scs, labels={'C01.MasterOnlyAuto'})
+    n1, s1 = len(traces), sum(len(t['steps']) for t in traces)
+    rnd = random.Random(seed)
+    scs = [sk.gen_start_scenario(rnd) for _ in range(12 if tier == 'quick' else 150)]
+    scs += [sk.gen_stop_scenario(rnd) for _ in range(12 if tier == 'quick' else 150)]
+    traces = sk.run_scenarios(scs)
+    sk.judge(v, traces, scs, ['C01.MasterOnlyAuto'], [], tag='seq01')
+    SEQ_RESULTS.append((v, n1 + len(traces), s1 + sum(len(t['steps']) for t in traces)))
+    return []
+
+
+def oneway_scenarios(tier, seed, tail):
+    """One-way communication glitches: the messages of a towards b are lost for longer than the inactivity timeout
+    while b's messages still reach a, for every ordered pair, every boot order (so that the Master is not always the
+    lowest nick) and several glitch lengths; then everything flows again and the instances must agree."""
+    import itertools
+    from recorder import Driver
+    out = []
+    for n_inst, sync in ((3, ('LIST', 'TIMEOUT')), (3, ('STRICT',)), (2, ('TIMEOUT',)), (2, ('STRICT',))):
+        cfg = cl.Config(n=n_inst, sync=sync)
+        traces, recs = [], {}
+        k = 0
+        if n_inst == 3:
+            orders = [('n1', 'n2', 'n3'), ('n2', 'n3', 'n1'), ('n3', 'n2', 'n1')]
+            lengths = (4, 7) if tier == 'quick' else (3, 4, 5, 7, 10)
+        else:
+            orders = [('n1', None, 'n2'), ('n2', None, 'n1')]
+            lengths = (3, 4, 5, 8) if tier == 'quick' else (3, 4, 5, 6, 7, 8, 10)
+        for order in orders:
+            for a, b in itertools.permutations([f'n{i}' for i in range(1, n_inst + 1)], 2):
+                for length, mode in itertools.product(lengths, ('lost', 'held')):
+                    c = cl.make_cluster(cfg)
+                    d = Driver(c)
+                    try:
+                        # late joiners: the first two instances settle before the third one boots
+                        d.boot(order[0])
+                        if order[1]:
+                            d.boot(order[1])
+                        for _ in range(8 if sync != ('STRICT',) or n_inst == 3 else 2):
+                            d.fair_round()
+                        d.boot(order[2])
+                        for _ in range(7):
+                            d.fair_round()
+                        if mode == 'lost':
+                            # the calls of a towards b fail (a notices, b does not)
+                            d.cut(a, b)
+                            for _ in range(length):
+                                d.fair_round()
+                        else:
+                            # the proxy thread of a towards b is stuck: its items are delivered late, in order
+                            for _ in range(length):
+                                for n in c.nodes:
+                                    d.tick(n)
+                                    d.drain(only=lambda pr: pr != (a, b))
+                        cl.fair_tail(d, cfg, tail)
+                    finally:
+                        c.close()
+                    traces.append(cl.mon_trace(k, d.rec, cfg, False, True))
+                    recs[k] = d.rec
+                    k += 1
+        out.append((cfg, traces, recs))
+    return out
+
+
 def main(tier, seed, replay=None):
     if replay:
+        import json
+        with open(replay) as f:
+            rep = json.load(f)['replay']
+        if 'scenario' in rep:
+            import vlib
+            v = vlib.Verdict('C01', tier, seed)
+            if 'strategy' in rep['scenario']:
+                import c05
+                c05.judge(v, c05.run_scenarios([rep['scenario']]), [rep['scenario']], labels={'C01.MasterOnlyAuto'})
+            else:
+                import seq_check as sk
+                sk.judge(v, sk.run_scenarios([rep['scenario']]), [rep['scenario']], ['C01.MasterOnlyAuto'], [])
+            return v.finish()
         return cc.replay_file(replay)
     q = tier == 'quick'
     e1 = [cl.Config(n=2, slow=[(1, 2)], rounds=9, k=7),
@@ -37,4 +129,4 @@ def main(tier, seed, replay=None):
                 cl.Config(n=2, crash=1, restart=1, user=2, sync=('USER',))]
     return cc.run('C01', tier, seed, LABELS, TERMINAL, e1, ['TerminalC01'], ['StepsC01'], sim, rnd,
                   n_beh=48 if q else 400, beh_depth=150, n_rnd=40 if q else 400, rnd_steps=250,
-                  e1_timeout=600 if q else 2400)
+                  e1_timeout=600 if q else 2400, extra_scenarios=[automatic_actions, oneway_scenarios])
